@@ -37,7 +37,7 @@ import (
 
 func main() { runtime.GOMAXPROCS(2); hx.Main("C17", run) }
 
-var alphabet = []string{"a", "b", " ", "世", "é", "👩‍🚀", "-", "1", "⁠"}
+var alphabet = []string{"a", "b", " ", "世", "\u00e9", "👩\u200d🚀", "-", "1", "\u2060", ".", "д", "🇩🇪", "e\u0301"}
 
 const nNarrow = 8 // alphabet[:nNarrow] all have a positive width
 
@@ -46,6 +46,9 @@ var alphaW []int
 var alphaWord []bool
 
 func init() {
+	for i, at := range atoms {
+		atomId[at.r] = i
+	}
 	for i, g := range alphabet {
 		alphaId[g] = i
 		chs := vaxis.Characters(g)
@@ -58,9 +61,60 @@ func init() {
 	}
 }
 
+// ---------- atoms (kinds tfc / tic): code points whose graphemes can merge ----------
+
+type atomDef struct {
+	r     rune
+	class byte // grapheme-break class: O other, E Extend, Z ZWJ, R regional indicator, P Extended_Pictographic, L V T Hangul jamo
+}
+
+var atoms = []atomDef{
+	{'a', 'O'}, {'b', 'O'}, {' ', 'O'}, {0x301, 'E'}, {0x200D, 'Z'}, {0xFE0F, 'E'}, {0x1F1E9, 'R'}, {0x1F1EA, 'R'},
+	{0x1F469, 'P'}, {0x1F680, 'P'}, {0x2764, 'P'}, {0x1100, 'L'}, {0x1161, 'V'}, {0x11A8, 'T'}, {0x4E16, 'O'}, {'e', 'O'},
+	{'-', 'O'}, {0x1F3FD, 'E'},
+}
+
+var atomId = map[rune]int{}
+
+// atomMode: ids are atom ids, strings are code point sequences, observations show clusters as a+b
+var atomMode = false
+
+func atomIds(s string) string {
+	var out []string
+	for _, r := range s {
+		if i, ok := atomId[r]; ok {
+			out = append(out, strconv.Itoa(i))
+		} else {
+			out = append(out, "99")
+		}
+	}
+	return strings.Join(out, "+")
+}
+
+func charWidths(chs []vaxis.Character) string {
+	if len(chs) == 0 {
+		return "-"
+	}
+	var out []string
+	for _, c := range chs {
+		out = append(out, strconv.Itoa(c.Width))
+	}
+	return strings.Join(out, ",")
+}
+
 func ids(s string) string {
 	if s == "" {
 		return "-"
+	}
+	if atomMode {
+		var out []string
+		st := -1
+		var c string
+		for len(s) > 0 {
+			c, s, _, st = uniseg.FirstGraphemeClusterInString(s, st)
+			out = append(out, atomIds(c))
+		}
+		return strings.Join(out, ",")
 	}
 	var out []string
 	st := -1
@@ -79,7 +133,11 @@ func ids(s string) string {
 func str(idl []int) string {
 	var b strings.Builder
 	for _, i := range idl {
-		b.WriteString(alphabet[i])
+		if atomMode {
+			b.WriteRune(atoms[i].r)
+		} else {
+			b.WriteString(alphabet[i])
+		}
 	}
 	return b.String()
 }
@@ -102,7 +160,7 @@ func parseIds(s string) ([]int, bool) {
 	var out []int
 	for _, f := range strings.Split(s, ",") {
 		v, err := strconv.Atoi(f)
-		if err != nil || v < 0 || v >= len(alphabet) {
+		if err != nil || v < 0 || (!atomMode && v >= len(alphabet)) || (atomMode && v >= len(atoms)) {
 			return nil, false
 		}
 		out = append(out, v)
@@ -111,6 +169,18 @@ func parseIds(s string) ([]int, bool) {
 }
 
 func header(kind string, n int, start []int) string {
+	if kind == "tfc" || kind == "tic" {
+		var k, a strings.Builder
+		for _, at := range atoms {
+			k.WriteByte(at.class)
+			if unicode.IsLetter(at.r) || unicode.IsNumber(at.r) {
+				a.WriteByte('1')
+			} else {
+				a.WriteByte('0')
+			}
+		}
+		return fmt.Sprintf("%s:%d k=%s a=%s s=%s W=%s", kind, n, k.String(), a.String(), idList(start), charWidths(vaxis.Characters(str(start))))
+	}
 	var w, a []string
 	for i := range alphabet {
 		w = append(w, strconv.Itoa(alphaW[i]))
@@ -154,6 +224,8 @@ var keyTable = []keyDef{
 	{"Ctrl+Right", vaxis.Key{Keycode: vaxis.KeyRight, Modifiers: vaxis.ModCtrl}, "noop", "wordright"},
 	{"Alt+b", vaxis.Key{Keycode: 'b', Modifiers: vaxis.ModAlt}, "noop", "wordleft"},
 	{"Ctrl+Left", vaxis.Key{Keycode: vaxis.KeyLeft, Modifiers: vaxis.ModCtrl}, "noop", "wordleft"},
+	// neither widget binds kill-word-right
+	{"Alt+d", vaxis.Key{Keycode: 'd', Modifiers: vaxis.ModAlt}, "noop", ""},
 	// unbound
 	{"F5", vaxis.Key{Keycode: vaxis.KeyF05}, "noop", ""},
 	{"Ctrl+x", vaxis.Key{Keycode: 'x', Modifiers: vaxis.ModCtrl}, "noop", ""},
@@ -216,6 +288,8 @@ func (t *tfRun) obs() string {
 	return fmt.Sprintf("v=%s col=%s cb=%s", ids(t.tf.Value), col, cb)
 }
 
+func (t *tfRun) widths() string { return charWidths(vaxis.Characters(t.tf.Value)) }
+
 func matchBits(k vaxis.Key) string {
 	b := []bool{
 		k.Matches('a', vaxis.ModCtrl) || k.Matches(vaxis.KeyHome),
@@ -239,7 +313,15 @@ func matchBits(k vaxis.Key) string {
 }
 
 // tfOp performs one op given in its textual form; returns the canonical op text and the result.
+func stripW(op []string) []string {
+	for len(op) > 0 && strings.HasPrefix(op[len(op)-1], "W=") {
+		op = op[:len(op)-1]
+	}
+	return op
+}
+
 func (t *tfRun) do(op []string) (string, string, bool) {
+	op = stripW(op)
 	res := ""
 	canon := strings.Join(op, " ")
 	ok := true
@@ -344,8 +426,22 @@ func (t *tiRun) close() {
 }
 
 func (t *tiRun) obs() string {
+	if atomMode {
+		// the content as the widget holds it: one entry per vaxis.Character
+		var out []string
+		for _, c := range t.m.Characters() {
+			out = append(out, atomIds(c.Grapheme))
+		}
+		v := "-"
+		if len(out) > 0 {
+			v = strings.Join(out, ",")
+		}
+		return fmt.Sprintf("v=%s cur=%d", v, t.m.CursorPosition())
+	}
 	return fmt.Sprintf("v=%s cur=%d", ids(t.m.String()), t.m.CursorPosition())
 }
+
+func (t *tiRun) widths() string { return charWidths(t.m.Characters()) }
 
 var sharedVx *vaxis.Vaxis
 
@@ -364,6 +460,7 @@ func getVx() *vaxis.Vaxis {
 var hung = false
 
 func (t *tiRun) do(op []string) (string, string, bool) {
+	op = stripW(op)
 	canon := strings.Join(op, " ")
 	res := ""
 	ok := true
@@ -515,13 +612,15 @@ func tiTextOp(idl []int) []string {
 
 type runner interface {
 	do(op []string) (string, string, bool)
+	widths() string
 }
 
 func runCase(r *hx.Run, kind string, n int, start []int, ops [][]string) {
+	atomMode = kind == "tfc" || kind == "tic"
 	r.Case(header(kind, n, start))
 	var rn runner
 	var ti *tiRun
-	if kind == "tf" {
+	if kind == "tf" || kind == "tfc" {
 		rn = newTF(start)
 	} else {
 		ti = newTI(start)
@@ -532,6 +631,9 @@ func runCase(r *hx.Run, kind string, n int, start []int, ops [][]string) {
 		canon, res, ok := rn.do(cp)
 		if !ok {
 			res = "bad-op"
+		}
+		if atomMode {
+			canon += " W=" + rn.widths()
 		}
 		r.Emit(canon, res)
 		r.Count(kind + ":" + op[0])
@@ -556,13 +658,14 @@ func run(r *hx.Run) error {
 		return hx.ReplayOps(r, func(op []string) (string, bool) {
 			if len(op) >= 2 && op[0] == "#case" {
 				kind := strings.SplitN(op[1], ":", 2)[0]
+				atomMode = kind == "tfc" || kind == "tic"
 				var start []int
 				for _, f := range op[2:] {
 					if strings.HasPrefix(f, "s=") {
 						start, _ = parseIds(f[2:])
 					}
 				}
-				if kind == "tf" {
+				if kind == "tf" || kind == "tfc" {
 					rn = newTF(start)
 				} else {
 					rn = newTI(start)
@@ -579,6 +682,7 @@ func run(r *hx.Run) error {
 	for _, c := range hx.Corpus("C17") {
 		// first line: "tf s=<ids>" or "ti s=<ids>"
 		f := strings.Fields(c[0])
+		atomMode = f[0] == "tfc" || f[0] == "tic"
 		var start []int
 		if len(f) > 1 && strings.HasPrefix(f[1], "s=") {
 			start, _ = parseIds(f[1][2:])
@@ -713,6 +817,190 @@ func run(r *hx.Run) error {
 			}
 		}
 		runCase(r, kind, next(), start, ops)
+	}
+	// ---- word motions of textinput over mixed separators (kind ti) ----
+	// every start of length <= 4 over {letter, space, '.', '-', wide letter, ZWJ emoji} (thorough: + flag, Cyrillic letter,
+	// word joiner; a typed tab is 8 spaces to vaxis.Characters, so a tab never is a grapheme of the text),
+	// every cursor position, each of Alt+b / Alt+f / Ctrl+w / Ctrl+Right / Ctrl+Left / Alt+d, then a typed
+	// letter (shows where the cursor went)
+	{
+		walpha := []int{0, 2, 9, 6, 3, 5}
+		wmax := 4
+		if r.Thorough {
+			walpha = []int{0, 2, 9, 6, 3, 5, 11, 10, 8}
+		}
+		wops := []string{"Alt+b", "Alt+f", "Ctrl+w", "Ctrl+Left", "Ctrl+Right", "Alt+d"}
+		var rec func(st []int)
+		rec = func(st []int) {
+			for pos := 0; pos <= len(st); pos++ {
+				for wi, w := range wops {
+					if wi >= 3 && (len(st)+pos)%3 != wi-3 {
+						continue // the aliases and the unbound key on a third of the cases each
+					}
+					ops := [][]string{tiKeyOp("Home")}
+					for i := 0; i < pos; i++ {
+						ops = append(ops, tiKeyOp("Right"))
+					}
+					ops = append(ops, tiKeyOp(w), tiTextOp([]int{1}))
+					runCase(r, "ti", next(), st, ops)
+					r.Count("gen:wordmotion")
+				}
+			}
+			if len(st) == wmax {
+				return
+			}
+			for _, a := range walpha {
+				rec(append(append([]int(nil), st...), a))
+			}
+		}
+		rec(nil)
+	}
+
+	// ---- merging graphemes (kinds tfc / tic): atoms = code points ----
+	// every start of length <= 4, every cursor position, every insert of the list typed one code point at a
+	// time and pasted as one string, then a typed letter, BackSpace, Left, Delete
+	{
+		inserts := [][]int{{3}, {5}, {4}, {7}, {12}, {13}, {17}, {4, 9}, {12, 13}, {15, 3}, {8, 4, 9}, {6, 7}, {10, 5},
+			{11, 12}, {3, 3}, {7, 7}, {0, 3, 1}, {8, 17, 4, 9}}
+		type startSet struct {
+			base []int
+			max  int
+		}
+		sets := []startSet{{[]int{0, 6, 8}, 4}, {[]int{11, 14, 10}, 2}, {[]int{0, 6, 8, 11, 14}, 2}}
+		if r.Thorough {
+			sets = []startSet{{[]int{0, 6, 8, 11, 14}, 4}, {[]int{10, 12, 3, 4}, 3}}
+		}
+		seen := map[string]bool{}
+		for _, set := range sets {
+			var rec func(st []int)
+			rec = func(st []int) {
+				key := idList(st)
+				if !seen[key] {
+					seen[key] = true
+					atomMode = true
+					n := len(vaxis.Characters(str(st)))
+					for _, kind := range []string{"tfc", "tic"} {
+						for pos := 0; pos <= n; pos++ {
+							for _, ins := range inserts {
+								for variant := 0; variant < 2; variant++ {
+									var ops [][]string
+									if kind == "tfc" {
+										ops = append(ops, []string{"cur", strconv.Itoa(pos)})
+										if variant == 0 {
+											for _, a := range ins {
+												ops = append(ops, tfTextOp([]int{a}))
+											}
+										} else if (pos+len(ins))%2 == 0 {
+											ops = append(ops, []string{"ins", idList(ins)})
+										} else {
+											ops = append(ops, tfTextOp(ins))
+										}
+										ops = append(ops, tfTextOp([]int{1}), tfKeyOp("BackSpace", false), tfKeyOp("Left", false),
+											tfKeyOp("Delete", false), []string{"draw", "9", "1"})
+									} else {
+										ops = append(ops, tiKeyOp("Home"))
+										for i := 0; i < pos; i++ {
+											ops = append(ops, tiKeyOp("Right"))
+										}
+										if variant == 0 {
+											for _, a := range ins {
+												ops = append(ops, tiTextOp([]int{a}))
+											}
+										} else if (pos+len(ins))%2 == 0 {
+											ops = append(ops, []string{"pkey", idList(ins[:1])})
+											if len(ins) > 1 {
+												ops = append(ops, []string{"pkey", idList(ins[1:])})
+											}
+											ops = append(ops, []string{"pend"})
+										} else {
+											ops = append(ops, tiTextOp(ins))
+										}
+										ops = append(ops, tiTextOp([]int{1}), tiKeyOp("BackSpace"), tiKeyOp("Left"),
+											tiKeyOp("Delete"), []string{"draw", "30", "-"})
+									}
+									runCase(r, kind, next(), st, ops)
+									r.Count("gen:merge-" + kind)
+								}
+							}
+						}
+					}
+				}
+				if len(st) == set.max {
+					return
+				}
+				for _, a := range set.base {
+					rec(append(append([]int(nil), st...), a))
+				}
+			}
+			rec(nil)
+		}
+		// random sequences over all atoms
+		nRandC := 600
+		if r.Thorough {
+			nRandC = 8000
+		}
+		randAtoms := func(max int) []int {
+			n := rng.Range(1, max)
+			out := make([]int, n)
+			for i := range out {
+				out[i] = rng.Intn(len(atoms))
+			}
+			return out
+		}
+		for i := 0; i < nRandC; i++ {
+			kind := "tfc"
+			if i%2 == 1 {
+				kind = "tic"
+			}
+			atomMode = true
+			start := randAtoms(8)
+			if rng.Chance(1, 4) {
+				start = nil
+			}
+			n := rng.Range(1, 40)
+			var ops [][]string
+			for j := 0; j < n; j++ {
+				if kind == "tfc" {
+					switch x := rng.Intn(20); {
+					case x < 7:
+						ops = append(ops, tfTextOp(randAtoms(2)))
+					case x < 14:
+						ops = append(ops, tfKeyOp(gen.Pick(rng, keyTable).name, rng.Chance(1, 15)))
+					case x == 14:
+						ops = append(ops, []string{"ins", idList(randAtoms(4))})
+					case x == 15:
+						ops = append(ops, []string{"cur", strconv.Itoa(rng.Intn(10))})
+					case x == 16:
+						ops = append(ops, []string{gen.Pick(rng, []string{"delr", "dell", "kill"})})
+					case x == 17:
+						ops = append(ops, []string{"dell"})
+					default:
+						ops = append(ops, []string{"draw", strconv.Itoa(rng.Range(0, 12)), strconv.Itoa(rng.Range(0, 2))})
+					}
+				} else {
+					switch x := rng.Intn(20); {
+					case x < 7:
+						ops = append(ops, tiTextOp(randAtoms(2)))
+					case x < 14:
+						ops = append(ops, tiKeyOp(gen.Pick(rng, keyTable).name))
+					case x == 14:
+						ops = append(ops, []string{"pkey", idList(randAtoms(3))})
+					case x == 15:
+						ops = append(ops, []string{"pend"})
+					case x == 16:
+						if rng.Chance(1, 3) {
+							ops = append(ops, []string{"set", idList(randAtoms(8))})
+						} else {
+							ops = append(ops, []string{"rel"})
+						}
+					default:
+						ops = append(ops, []string{"draw", strconv.Itoa(rng.Range(1, 30)), "-"})
+					}
+				}
+			}
+			runCase(r, kind, next(), start, ops)
+			r.Count("gen:merge-random")
+		}
 	}
 	if sharedVx != nil && !hung {
 		sharedVx.Close()
